@@ -294,7 +294,7 @@ impl Ctx {
                 "environment".into(),
                 json!({
                     "TZ": std::env::var("TZ").unwrap_or_default(),
-                    "logging_passes": if self.prop == "C20" || std::env::var("VERIF_SINGLE_PASS").is_ok() { vec!["off"] } else { vec!["trace (sink logger, nexrad targets), wall clock set to 1986-07-01", "off, real wall clock (reported)"] },
+                    "logging_passes": if self.prop == "C20" || std::env::var("VERIF_SINGLE_PASS").is_ok() { vec!["off".to_string()] } else { let mut v: Vec<String> = preliminary_log_levels(self.tier).iter().map(|l| format!("{l} (sink logger, nexrad targets{})", if *l == log::LevelFilter::Trace { "; wall clock set to 1986-07-01" } else { "" })).collect(); v.push("Off, real wall clock (reported)".into()); v },
                     "wall_clock": "owned: the harness binary defines clock_gettime; CLOCK_REALTIME answers come from the harness (self-tested against chrono::Utc::now at start-up)",
                     "profile": if cfg!(debug_assertions) { "opt-level 2, overflow-checks on, debug-assertions on" } else { "opt-level 2, overflow-checks on, debug-assertions off" },
                 }),
@@ -656,6 +656,14 @@ pub fn machinery(msg: &str) -> ! {
     std::process::exit(3);
 }
 
+/// Debug-formats `x` in every formatter mode a caller can select (`{:?}`, the pretty / alternate
+/// form used by `{:#?}` and `dbg!`, width, precision, sign, hex flags). A hand-written `Debug` impl
+/// may branch on the formatter's flags, so the mode is an input dimension of "formatting for
+/// debugging". Returns the total length.
+pub fn debug_all<T: std::fmt::Debug>(x: &T) -> usize {
+    format!("{:?}", x).len() + format!("{:#?}", x).len() + format!("{:12?}", x).len() + format!("{:.1?}", x).len() + format!("{:+?}", x).len() + format!("{:#x?}", x).len() + format!("{:<#20.3?}", x).len()
+}
+
 /// Spawns `n` worker processes of this binary (`<prop> <tier> --worker <i> <n>`) and returns the
 /// JSON each printed on its `WORKER_RESULT ` line. A worker that dies is a machinery failure.
 pub fn run_workers(prop: &str, tier: Tier, n: usize) -> Vec<Value> {
@@ -787,8 +795,21 @@ static SINK: SinkLogger = SinkLogger;
 /// Installs the sink logger (once) and sets the global maximum level: `trace` makes every
 /// `trace!`/`debug!` in the library evaluate its arguments, `off` is the library's default state.
 pub fn set_logging(trace: bool) {
+    set_logging_level(if trace { log::LevelFilter::Trace } else { log::LevelFilter::Off });
+}
+
+pub fn set_logging_level(level: log::LevelFilter) {
     let _ = log::set_logger(&SINK);
-    log::set_max_level(if trace { log::LevelFilter::Trace } else { log::LevelFilter::Off });
+    log::set_max_level(level);
+}
+
+/// The preliminary passes of a run, in order; the final (reported) pass is always `Off`. Behaviour
+/// need not be monotone in the level (`if log_enabled!(Trace) {..} else { debug!(..) }`), so the
+/// levels are separate points: quick = Trace and Debug (where libraries put argument-evaluating
+/// statements), thorough = every level.
+pub fn preliminary_log_levels(tier: Tier) -> Vec<log::LevelFilter> {
+    use log::LevelFilter::*;
+    if tier.thorough() { vec![Trace, Debug, Info, Warn, Error] } else { vec![Trace, Debug] }
 }
 
 /// The process runs in a non-UTC zone with daylight-saving rules (POSIX TZ string, no tz database
